@@ -1,5 +1,8 @@
 mod alloc;
 mod c17;
+mod layout;
+mod template;
+mod valve;
 mod transport;
 mod util;
 
@@ -14,6 +17,12 @@ fn arg<'a>(args: &'a [String], name: &str) -> Option<&'a str> {
 }
 fn arg_u64(args: &[String], name: &str, default: u64) -> u64 {
     arg(args, name).map(|s| s.parse().expect("numeric argument")).unwrap_or(default)
+}
+
+fn drift_ids() -> Vec<String> {
+    let v: Value = serde_json::from_str(&std::fs::read_to_string("/verif/spec/drift.json").expect("spec/drift.json"))
+        .expect("drift.json is json");
+    v["drift"].as_array().unwrap().iter().map(|d| d["id"].as_str().unwrap().to_string()).collect()
 }
 
 fn main() {
@@ -61,6 +70,22 @@ fn main() {
             c17::trace_buffer(seed, arg_u64(&args, "--runs", 2000) as usize, &mut out, &mut rep);
             rep.extra.insert("events".into(), json!(out.len()));
             write_ndjson(arg(&args, "--out-trace").unwrap(), &out);
+        }
+        "valve-behaviours" | "valve-layouts" => {
+            let ctx = valve::Ctx {
+                layouts: layout::LayoutSet::load(arg(&args, "--layouts").unwrap()),
+                templates: template::Templates::load(arg(&args, "--templates").unwrap()),
+                drift: drift_ids(),
+            };
+            let reps = arg_u64(&args, "--reps", 1) as usize;
+            if cmd == "valve-layouts" {
+                valve::replay_layouts(&ctx, seed, reps, &mut rep);
+            } else {
+                let only: Vec<&'static str> = arg(&args, "--only")
+                    .map(|s| s.split(',').map(|x| &*Box::leak(x.to_string().into_boxed_str())).collect())
+                    .unwrap_or_default();
+                valve::replay_behaviours(&ctx, &read_ndjson(arg(&args, "--in").unwrap()), seed, reps, &only, &mut rep);
+            }
         }
         _ => {
             eprintln!("unknown command {cmd:?}");
